@@ -5,6 +5,7 @@ code itself evaluates):  every radicand is >= 0  and  | (sum_k K_k^dagger K_k - 
 stabiliser the source adds under every square root (read from the module).  Exact completeness is false by construction of
 the code (eps > 0), so the obligation is completeness up to the source's own eps.
 """
+import contextlib
 import itertools
 import math
 import random
@@ -202,6 +203,456 @@ def make_ob(name, names, build, sampler, seed):
                       sample="sum of K^dagger K equals I up to C*eps on the documented domain; all radicands non-negative there")
 
 
+# ======================================================================================================================
+# C28, second sentence: the density matrices default.mixed produces equal an independent Kraus-sum simulation.
+# 
+# E2 (vf/symx): the REAL kernels of devices/qubit_mixed -- apply_operation_einsum, apply_operation_tensordot, the apply_operation dispatch
+# with its special-cased fast paths, get_final_state (padding of idle measured wires) and measure_final_state for density_matrix / state --
+# are run on a GENERIC symbolic density tensor (every entry re + i*im, two independent real symbols) with GENERIC symbolic Kraus matrices
+# (every entry two symbols), and every entry of the result is compared, as a polynomial, with the reference
+# 
+#         out[r, c] = sum_q sum_{a, b} K_q[r_W, a] * rho[r with W <- a, c with W <- b] * conj(K_q[c_W, b])
+# 
+# written with plain index arithmetic below (no einsum strings, no tensordot axes).  The identities are linear in rho and sesquilinear in K, so
+# equality of polynomials is equality for ALL states and ALL operator matrices; the wire counts / placements / batch sizes are enumerated
+# (size-bounded).  Trace preservation and Hermiticity preservation are lemmas over the reference; positivity is the textbook consequence of
+# the Kraus form (not machine-checked).
+# ======================================================================================================================
+AO = "pennylane/devices/qubit_mixed/apply_operation.py"
+SIM = "pennylane/devices/qubit_mixed/simulate.py"
+MEAS = "pennylane/devices/qubit_mixed/measure.py"
+
+
+@contextlib.contextmanager
+def symbolic_casts():
+    """harness: casting an object array of symbolic scalars to a float / complex dtype keeps it symbolic (A-float-as-real), as the
+    SymArray views already do; autoray's astype would call complex() on every entry"""
+    import autoray
+    orig = autoray.astype
+
+    def astype(x, dtype_name, **kw):
+        if isinstance(x, np.ndarray) and np.asarray(x).dtype == object:
+            try:
+                if np.dtype(dtype_name).kind in "fc":
+                    return x
+            except TypeError:
+                pass
+        return orig(x, dtype_name, **kw)
+    autoray.astype = astype
+    try:
+        yield
+    finally:
+        autoray.astype = orig
+
+
+def cname(base):
+    return [base + "r", base + "i"]
+
+
+def cval(S, base):
+    return S[base + "r"] + 1j * S[base + "i"]
+
+
+def tensor_names(tag, shape):
+    return [n for idx in np.ndindex(*shape) for n in cname(tag + "_".join(map(str, idx)))]
+
+
+def tensor(S, tag, shape):
+    """complex array of the given shape whose entries are S[tag<idx>r] + i*S[tag<idx>i] (symbolic -> SymArrayC, floats -> complex ndarray)"""
+    vals = [cval(S, tag + "_".join(map(str, idx))) for idx in np.ndindex(*shape)]
+    if all(isinstance(v, complex) for v in vals):
+        return np.array(vals, dtype=complex).reshape(shape)
+    from vf.symx.scalar import symarray_c
+    return symarray_c(vals, shape)
+
+
+def conj(x):
+    return x.conjugate()
+
+
+def bits_of(i, m):
+    return [(i >> (m - 1 - t)) & 1 for t in range(m)]
+
+
+def int_of(bits):
+    v = 0
+    for b in bits:
+        v = 2 * v + int(b)
+    return v
+
+
+def ref_apply(rho, kraus_of, wires, n, batch):
+    """the Kraus sum, entry by entry.  rho: array of shape ([batch] +) [2]*2n; kraus_of(b) -> list of (2^m, 2^m) matrices for batch item b
+    (b is None without a batch); wires: the target wires in the operator's own order (first wire = most significant bit)"""
+    m = len(wires)
+    off = 1 if batch else 0
+    out = np.empty(rho.shape, dtype=object)
+    for idx in np.ndindex(*rho.shape):
+        b = idx[0] if batch else None
+        r, c = list(idx[off:off + n]), list(idx[off + n:])
+        ri, ci = int_of(r[w] for w in wires), int_of(c[w] for w in wires)
+        acc = 0
+        for K in kraus_of(b):
+            for a in range(2 ** m):
+                ka = K[ri, a]
+                r2 = list(r)
+                for t, w in enumerate(wires):
+                    r2[w] = bits_of(a, m)[t]
+                for bb in range(2 ** m):
+                    c2 = list(c)
+                    for t, w in enumerate(wires):
+                        c2[w] = bits_of(bb, m)[t]
+                    acc = acc + ka * rho[tuple(([b] if batch else []) + r2 + c2)] * conj(K[ci, bb])
+        out[idx] = acc
+    return out
+
+
+def ref_pad(rho, n, idle, batch):
+    """rho (x) |0><0|^idle in tensor layout ([batch] +) rows(n + idle) + cols(n + idle)"""
+    off = 1 if batch else 0
+    N = n + idle
+    shape = ([rho.shape[0]] if batch else []) + [2] * (2 * N)
+    out = np.empty(shape, dtype=object)
+    for idx in np.ndindex(*shape):
+        r, c = idx[off:off + N], idx[off + N:]
+        if any(r[n:]) or any(c[n:]):
+            out[idx] = 0.0
+        else:
+            out[idx] = rho[tuple(list(idx[:off]) + list(r[:n]) + list(c[:n]))]
+    return out
+
+
+def ref_reduced(rho, N, keep, batch):
+    """reduced density MATRIX on the wires `keep` (in that order) of the tensor-layout state of N wires"""
+    off = 1 if batch else 0
+    B = rho.shape[0] if batch else 1
+    k = len(keep)
+    rest = [w for w in range(N) if w not in keep]
+    out = np.empty(([B] if batch else []) + [2 ** k, 2 ** k], dtype=object)
+    for b in range(B):
+        for i in range(2 ** k):
+            for j in range(2 ** k):
+                acc = 0
+                for t in range(2 ** len(rest)):
+                    r, c = [0] * N, [0] * N
+                    for p, w in enumerate(keep):
+                        r[w], c[w] = bits_of(i, k)[p], bits_of(j, k)[p]
+                    for p, w in enumerate(rest):
+                        r[w] = c[w] = bits_of(t, len(rest))[p]
+                    acc = acc + rho[tuple(([b] if batch else []) + r + c)]
+                out[tuple(([b] if batch else []) + [i, j])] = acc
+    return out
+
+
+def basis_state(n, batch=None):
+    shape = ([batch] if batch else []) + [2] * (2 * n)
+    out = np.zeros(shape, dtype=object)
+    for b in range(batch or 1):
+        out[tuple(([b] if batch else []) + [0] * (2 * n))] = 1.0
+    return out
+
+
+def make_channel_class():
+    import pennylane as qp
+    from pennylane.operation import Channel
+
+    class GenericChannel(Channel):
+        """environment object: a channel whose Kraus matrices are the given (symbolic) matrices"""
+        num_params = 0
+        grad_method = None
+
+        def __init__(self, kraus, wires):
+            self._kraus = kraus
+            super().__init__(wires=wires)
+
+        def kraus_matrices(self):
+            return self._kraus
+
+        @staticmethod
+        def compute_kraus_matrices(*a, **k):
+            raise NotImplementedError
+    return GenericChannel
+
+
+def add_simulator_obligations(plan, tier, seed):
+    import pennylane as qp
+    from vf.symx.oblig import identity_obligation, lemma_obligation
+    from pennylane.devices.qubit_mixed.apply_operation import apply_operation, apply_operation_einsum, apply_operation_tensordot
+    from pennylane.devices.qubit_mixed.simulate import get_final_state, measure_final_state
+
+    GenericChannel = make_channel_class()
+    KERNELS = {"apply_operation_einsum": apply_operation_einsum, "apply_operation_tensordot": apply_operation_tensordot,
+               "apply_operation": apply_operation}
+    for q in ("apply_operation_einsum", "apply_operation_tensordot", "apply_operation", "_apply_operation_default", "_conjugate_state_with",
+              "apply_diagonal_unitary", "apply_symmetric_real_op", "apply_paulix", "apply_pauliz", "apply_T", "apply_S", "apply_phaseshift",
+              "apply_identity", "apply_global_phase", "_phase_shift", "_get_num_wires"):
+        plan.fn_under_contract(AO, q)
+    plan.fn_under_contract(SIM, "get_final_state")
+    plan.fn_under_contract(SIM, "measure_final_state")
+
+    def flat(x):
+        a = np.asarray(x, dtype=object)
+        return np.array([float(a.ndim)] + [float(s) for s in a.shape] + list(a.reshape(-1)), dtype=object)
+
+    def add(name, func, names, traced, reference, size_bounded=True, timeout=600):
+        def tr(S):
+            with symbolic_casts():
+                return flat(traced(S))
+
+        def nat(env):
+            return np.array([complex(z) for z in flat(traced({k: float(v) for k, v in env.items()}))])
+        plan.add(identity_obligation(name, "post", names, tr, lambda S: flat(reference(S)), native=nat, func=func, size_bounded=size_bounded,
+                                     seed=seed, timeout=timeout,
+                                     sample="real kernel on a generic symbolic state / operator == Kraus sum by index arithmetic (every entry, as polynomials)"))
+
+    def st_shape(n, batch):
+        return tuple(([batch] if batch else []) + [2] * (2 * n))
+
+    def kraus_names(k, m):
+        return [nm for q in range(k) for nm in tensor_names(f"k{q}_", (2 ** m, 2 ** m))]
+
+    def kraus(S, k, m):
+        return [tensor(S, f"k{q}_", (2 ** m, 2 ** m)) for q in range(k)]
+
+    # ---- generic channels through the three entry points -------------------------------------------------------------------------------
+    def channel_case(kname, n, wires, k, batch):
+        m = len(wires)
+        names = tensor_names("r", st_shape(n, batch)) + kraus_names(k, m)
+        label = f"C28/apply_operation:{kname}/generic-channel-{k}kraus/wires{list(wires)}-of-{n}/batch-{batch}".replace(" ", "")
+
+        def traced(S):
+            op = GenericChannel(kraus(S, k, m), wires=list(wires))
+            return KERNELS[kname](op, tensor(S, "r", st_shape(n, batch)), is_state_batched=bool(batch))
+
+        def reference(S):
+            Ks = kraus(S, k, m)
+            return ref_apply(np.asarray(tensor(S, "r", st_shape(n, batch)), dtype=object), lambda b: Ks, wires, n, batch)
+        add(label, (AO, kname), names, traced, reference)
+
+    P3 = [p for m in (1, 2, 3) for p in itertools.permutations(range(3), m)]
+    quick = tier == "quick"
+    for kname in ("apply_operation_einsum", "apply_operation_tensordot"):
+        for i, wires in enumerate(P3):
+            channel_case(kname, 3, wires, 1, None)
+            if not quick or len(wires) < 3 or wires in ((1, 2, 0), (2, 1, 0)):
+                channel_case(kname, 3, wires, 2, 2)          # (object-dtype einsum over three 3-wire operands is slow: two placements in the quick tier)
+            if i % 3 == 0 and (not quick or len(wires) < 3):
+                channel_case(kname, 3, wires, 1, 1)
+    for i, wires in enumerate(P3):
+        channel_case("apply_operation", 3, wires, 1, None)
+        if i % 3 == 1:
+            channel_case("apply_operation", 3, wires, 2, 2)
+    P4 = [(2,), (3, 1), (0, 3), (3, 0, 2)] if tier == "quick" else \
+        [p for m in (1, 2, 3) for p in itertools.permutations(range(4), m)]
+    for kname in ("apply_operation_einsum", "apply_operation_tensordot"):
+        for wires in P4:
+            channel_case(kname, 4, wires, 1, None)
+        channel_case(kname, 4, (3, 1), 1, 2)
+    plan.size_bounds.append("generic channels: 1, 2, 3 target wires in EVERY ordered placement on 3-wire states (quick: 4 placements on 4-wire "
+                            "states; thorough: all), 1-2 Kraus operators, unbatched and batch sizes 1, 2; all matrix and state entries symbolic")
+
+    # ---- generic (non-channel) operator matrices, also broadcast ----------------------------------------------------------------------------
+    def matrix_case(kname, n, wires, op_batch, batch):
+        m = len(wires)
+        ushape = tuple(([op_batch] if op_batch else []) + [2 ** m, 2 ** m])
+        names = tensor_names("r", st_shape(n, batch)) + tensor_names("u", ushape)
+        out_batch = batch or op_batch
+        label = f"C28/apply_operation:{kname}/generic-matrix/wires{list(wires)}-of-{n}/op-batch-{op_batch}/state-batch-{batch}".replace(" ", "")
+
+        def traced(S):
+            op = qp.QubitUnitary(tensor(S, "u", ushape), wires=list(wires))
+            return KERNELS[kname](op, tensor(S, "r", st_shape(n, batch)), is_state_batched=bool(batch))
+
+        def reference(S):
+            U = np.asarray(tensor(S, "u", ushape), dtype=object)
+            rho = np.asarray(tensor(S, "r", st_shape(n, batch)), dtype=object)
+            if out_batch and not batch:
+                rho = np.stack([rho] * out_batch)           # a broadcast operator on an unbatched state: one result per operator
+            return ref_apply(rho, lambda b: [U[b] if op_batch else U], wires, n, out_batch)
+        add(label, (AO, kname), names, traced, reference)
+
+    for wires in ((2,), (2, 0)):
+        for ob, sb in ((None, None), (2, None), (None, 2), (2, 2)):
+            matrix_case("apply_operation_einsum", 3, wires, ob, sb)
+            matrix_case("apply_operation", 3, wires, ob, sb)
+        for sb in (None, 2):
+            matrix_case("apply_operation_tensordot", 3, wires, None, sb)
+    matrix_case("apply_operation", 3, (1, 2, 0), None, None)
+    matrix_case("apply_operation", 3, (2, 0, 1), None, 2)
+
+    # ---- the special-cased fast paths of the dispatch: concrete gates on a generic state ------------------------------------------------------
+    def gate_case(tag, build, wires, pnames, batch, n=3):
+        names = tensor_names("r", st_shape(n, batch)) + list(pnames)
+        label = f"C28/apply_operation:apply_operation/fast-path-{tag}/wires{list(wires)}-of-{n}/batch-{batch}".replace(" ", "")
+
+        def traced(S):
+            return apply_operation(build(S), tensor(S, "r", st_shape(n, batch)), is_state_batched=bool(batch))
+
+        def reference(S):
+            op = build(S)
+            U = np.asarray(qp.matrix(op, wire_order=list(wires)), dtype=object)
+            return ref_apply(np.asarray(tensor(S, "r", st_shape(n, batch)), dtype=object), lambda b: [U], wires, n, batch)
+        add(label, (AO, "apply_operation"), names, traced, reference)
+
+    one = [(qp.X, "PauliX"), (qp.Z, "PauliZ"), (qp.T, "T"), (qp.S, "S"), (qp.Hadamard, "Hadamard"), (qp.Y, "PauliY")]
+    for cls, tag in one:
+        for w in range(3):
+            gate_case(tag, lambda S, cls=cls, w=w: cls(w), (w,), [], None)
+        gate_case(tag, lambda S, cls=cls: cls(1), (1,), [], 2)
+    for w in range(3):
+        gate_case("PhaseShift", lambda S, w=w: qp.PhaseShift(S["a"], w), (w,), ["a"], None)
+        gate_case("RZ", lambda S, w=w: qp.RZ(S["a"], w), (w,), ["a"], None)
+    gate_case("PhaseShift", lambda S: qp.PhaseShift(S["a"], 2), (2,), ["a"], 2)
+    gate_case("RZ", lambda S: qp.RZ(S["a"], 0), (0,), ["a"], 2)
+    gate_case("Identity", lambda S: qp.Identity(1), (1,), [], None)
+    gate_case("GlobalPhase", lambda S: qp.GlobalPhase(S["a"], wires=1), (1,), ["a"], None)
+    two = [(qp.CNOT, "CNOT"), (qp.SWAP, "SWAP"), (qp.CZ, "CZ"), (qp.CH, "CH")]
+    for cls, tag in two:
+        for wires in itertools.permutations(range(3), 2):
+            gate_case(tag, lambda S, cls=cls, wires=wires: cls(wires=list(wires)), wires, [], None)
+        gate_case(tag, lambda S, cls=cls: cls(wires=[2, 0]), (2, 0), [], 2)
+    for wires in ((0, 1), (2, 0), (1, 2)):
+        gate_case("IsingZZ", lambda S, wires=wires: qp.IsingZZ(S["a"], wires=list(wires)), wires, ["a"], None)
+        gate_case("ControlledPhaseShift", lambda S, wires=wires: qp.ControlledPhaseShift(S["a"], wires=list(wires)), wires, ["a"], None)
+    gate_case("IsingZZ", lambda S: qp.IsingZZ(S["a"], wires=[2, 1]), (2, 1), ["a"], 2)
+    for wires in itertools.permutations(range(3), 3):
+        gate_case("Toffoli", lambda S, wires=wires: qp.Toffoli(wires=list(wires)), wires, [], None)
+    for wires in ((0, 1, 2), (2, 0, 1), (1, 2, 0)):
+        gate_case("CSWAP", lambda S, wires=wires: qp.CSWAP(wires=list(wires)), wires, [], None)
+        gate_case("CCZ", lambda S, wires=wires: qp.CCZ(wires=list(wires)), wires, [], None)
+        gate_case("MultiRZ", lambda S, wires=wires: qp.MultiRZ(S["a"], wires=list(wires)), wires, ["a"], None)
+        gate_case("MultiControlledX", lambda S, wires=wires: qp.MultiControlledX(wires=list(wires), control_values=[1, 0]), wires, [], None)
+    gate_case("Toffoli", lambda S: qp.Toffoli(wires=[2, 0, 1]), (2, 0, 1), [], 2)
+    gate_case("GroverOperator", lambda S: qp.GroverOperator(wires=[0, 1, 2]), (0, 1, 2), [], None)
+    gate_case("GroverOperator", lambda S: qp.GroverOperator(wires=[2, 0]), (2, 0), [], 2)
+    plan.size_bounds.append("fast paths: the listed one-, two- and three-wire gates in every (1-, 2-wire) / selected (3-wire) placement on a 3-wire "
+                            "generic state, unbatched and batch size 2; gate parameters symbolic")
+
+    # ---- get_final_state (idle measured wires are padded with |0><0|) and measure_final_state --------------------------------------------------
+    def circuit_case(tag, active, idle, op_batch, meas):
+        """ops: a (possibly broadcast) generic one-wire matrix on wire 0, then a generic 2-Kraus channel on (active-1, 0) if active > 1"""
+        N = active + idle
+        ushape = tuple(([op_batch] if op_batch else []) + [2, 2])
+        names = tensor_names("u", ushape) + (kraus_names(2, 2) if active > 1 else kraus_names(1, 1))
+        label = f"C28/simulate:{tag}/active{active}-idle{idle}/op-batch-{op_batch}/{meas[0]}".replace(" ", "")
+
+        def ops(S):
+            U = tensor(S, "u", ushape)
+            second = GenericChannel(kraus(S, 2, 2), wires=[active - 1, 0]) if active > 1 else GenericChannel(kraus(S, 1, 1), wires=[0])
+            return [qp.QubitUnitary(U, wires=[0]), second]
+
+        def mps():
+            return [qp.density_matrix(wires=list(meas[1]))] if meas[0] != "state" else [qp.state()]
+
+        def ref_state(S):
+            U = np.asarray(tensor(S, "u", ushape), dtype=object)
+            rho = basis_state(active, op_batch)
+            rho = ref_apply(rho, lambda b: [U[b] if op_batch else U], (0,), active, op_batch)
+            if active > 1:
+                Ks = kraus(S, 2, 2)
+                rho = ref_apply(rho, lambda b: Ks, (active - 1, 0), active, op_batch)
+            else:
+                Ks = kraus(S, 1, 1)
+                rho = ref_apply(rho, lambda b: Ks, (0,), active, op_batch)
+            return ref_pad(rho, active, idle, op_batch)
+
+        def traced(S):
+            all_wires = list(range(N))
+            tape = qp.tape.QuantumScript(ops(S), mps() if (meas[0] != "state" and set(meas[1]) == set(all_wires)) or idle == 0
+                                         else mps() + [qp.density_matrix(wires=all_wires)])
+            # the measured wires decide which idle wires exist: measure all wires in the last measurement when the first does not
+            st, isb = get_final_state(tape)
+            if tag == "get_final_state":
+                return st
+            res = measure_final_state(tape, st, isb)
+            return res[0] if isinstance(res, tuple) else res
+
+        def reference(S):
+            full = ref_state(S)
+            if tag == "get_final_state":
+                return full
+            keep = list(range(N)) if meas[0] == "state" else list(meas[1])
+            return ref_reduced(full, N, keep, op_batch)
+        add(label, (SIM, tag), names, traced, reference)
+
+    for active, idle in ((1, 1), (2, 1), (2, 2), (2, 0)):
+        N = active + idle
+        for ob in (None, 1, 2):
+            circuit_case("get_final_state", active, idle, ob, ("density_matrix-all", tuple(range(N))))
+            circuit_case("measure_final_state", active, idle, ob, ("density_matrix-all", tuple(range(N))))
+        circuit_case("measure_final_state", active, idle, 2, ("state", ()))
+        if N >= 2:
+            circuit_case("measure_final_state", active, idle, 2, (f"density_matrix-{[N - 1, 0]}", (N - 1, 0)))
+            circuit_case("measure_final_state", active, idle, None, (f"density_matrix-{[N - 1]}", (N - 1,)))
+    plan.size_bounds.append("get_final_state / measure_final_state: circuits of a (broadcast, batch 1 or 2, or unbatched) generic one-wire matrix and a "
+                            "generic two-wire channel on 1-2 operated wires followed by 0-2 idle measured wires; density_matrix over all / a "
+                            "reversed subset / the idle wire, and state")
+
+    # ---- lemmas over the reference: trace and Hermiticity -----------------------------------------------------------------------------------------
+    def trace_of(rho, n):
+        acc = 0
+        for t in range(2 ** n):
+            acc = acc + rho[tuple(bits_of(t, n) + bits_of(t, n))]
+        return acc
+
+    def lemma_case(n, wires, k):
+        m = len(wires)
+        names = tensor_names("r", st_shape(n, None)) + kraus_names(k, m)
+
+        def lhs_trace(S):
+            Ks = kraus(S, k, m)
+            out = ref_apply(np.asarray(tensor(S, "r", st_shape(n, None)), dtype=object), lambda b: Ks, wires, n, None)
+            return np.array([trace_of(out, n)], dtype=object)
+
+        def rhs_trace(S):
+            # tr( (sum_q K_q^dagger K_q embedded) rho ): with sum_q K_q^dagger K_q == 1 this is tr(rho)
+            Ks = kraus(S, k, m)
+            M = np.empty((2 ** m, 2 ** m), dtype=object)
+            for i in range(2 ** m):
+                for j in range(2 ** m):
+                    acc = 0
+                    for K in Ks:
+                        for t in range(2 ** m):
+                            acc = acc + conj(K[t, i]) * K[t, j]
+                    M[i, j] = acc
+            rho = np.asarray(tensor(S, "r", st_shape(n, None)), dtype=object)
+            acc = 0
+            for r in itertools.product((0, 1), repeat=n):
+                for a in range(2 ** m):
+                    c = list(r)
+                    for t, w in enumerate(wires):
+                        c[w] = bits_of(a, m)[t]
+                    # (M_emb rho)[r, r] = sum_c M_emb[r, c] rho[c, r]
+                    acc = acc + M[int_of(r[w] for w in wires), a] * rho[tuple(c + list(r))]
+            return np.array([acc], dtype=object)
+        plan.add(lemma_obligation(f"C28/lemma:kraus-sum/trace-equals-trace-of-(sum-KdaggerK)rho/wires{list(wires)}-of-{n}/{k}kraus".replace(" ", ""),
+                                  names, lhs_trace, rhs_trace, size_bounded=True,
+                                  sample="tr(sum_q K_q rho K_q^dagger) == tr((sum_q K_q^dagger K_q) rho): trace preserved when the Kraus set is complete"))
+
+        def lhs_herm(S):
+            Ks = kraus(S, k, m)
+            out = ref_apply(np.asarray(tensor(S, "r", st_shape(n, None)), dtype=object), lambda b: Ks, wires, n, None)
+            dag = np.empty(out.shape, dtype=object)
+            for idx in np.ndindex(*out.shape):
+                dag[idx] = conj(out[tuple(list(idx[n:]) + list(idx[:n]))])
+            return dag.reshape(-1)
+
+        def rhs_herm(S):
+            Ks = kraus(S, k, m)
+            rho = np.asarray(tensor(S, "r", st_shape(n, None)), dtype=object)
+            rdag = np.empty(rho.shape, dtype=object)
+            for idx in np.ndindex(*rho.shape):
+                rdag[idx] = conj(rho[tuple(list(idx[n:]) + list(idx[:n]))])
+            return ref_apply(rdag, lambda b: Ks, wires, n, None).reshape(-1)
+        plan.add(lemma_obligation(f"C28/lemma:kraus-sum/adjoint-of-image-is-image-of-adjoint/wires{list(wires)}-of-{n}/{k}kraus".replace(" ", ""),
+                                  names, lhs_herm, rhs_herm, size_bounded=True,
+                                  sample="(sum_q K_q rho K_q^dagger)^dagger == sum_q K_q rho^dagger K_q^dagger: Hermitian in, Hermitian out"))
+
+    lemma_case(2, (1,), 2)
+    lemma_case(3, (2, 0), 2)
+    lemma_case(3, (1, 2, 0), 1)
+
+
 def build(tier, seed):
     plan = Plan("C28", level="proof")
     plan.explanation = ("Each channel's real compute_kraus_matrices runs on sympy-backed symbolic parameters; its own domain guards "
@@ -216,4 +667,5 @@ def build(tier, seed):
         ob = make_ob(name, names, bld, sampler, seed)
         plan.add(ob)
         plan.fn_under_contract(*ob.func)
+    add_simulator_obligations(plan, tier, seed)
     return plan
